@@ -47,4 +47,18 @@ theorem C01_order_and_grouping_irrelevant_2d (w : World R) (hnr : w.NoRandom) (p
   simp only [Except.ok.injEq, Prod.mk.injEq, and_true] at this
   exact this
 
+/-- **C01.1 (2-D)** a batched request through the cross-section interface returns exactly the announced number of values -/
+theorem C01_output_size_2d (w : World R) (pt : P2 R) (depth : R) (ps : List Req) :
+    Post (G := G) (w.props2 pt depth ps) (fun out => out.length = outputSize ps ∧ outputSize? ps = .ok (outputSize ps)) := by
+  intro g out g' h
+  rw [World.props2_blocks] at h
+  cases hb : w.props2Blocks pt depth ps g with
+  | error e => simp [hb, embedBlocks] at h
+  | ok r =>
+    obtain ⟨bs, g1⟩ := r
+    simp only [hb, embedBlocks, List.nil_append, Except.ok.injEq, Prod.mk.injEq] at h
+    obtain ⟨rfl, _⟩ := h
+    have hf := World.props2Blocks_fits w pt depth ps g bs g1 hb
+    exact ⟨hf.flatten_length, outputSize?_eq ps hf.valid⟩
+
 end Gwb
